@@ -708,7 +708,7 @@ Lemma partition_ok_spec track (muts : list (N * list (N * val))) p :
   partition_ok track muts p = true ->
   NoDup (concat p) /\ NoDup (map fst muts) /\ Permutation (concat p) (map fst muts) /\
   (muts = [] -> p = if track then [[]] else []) /\
-  (muts <> [] -> forall ents, In ents p -> ents <> []).
+  (muts <> [] -> exists front last, p = front ++ [last] /\ forall ents, In ents front -> ents <> []).
 Proof.
   unfold partition_ok. intros H. apply andb_prop in H. destruct H as [H H4].
   apply andb_prop in H. destruct H as [H H3]. apply andb_prop in H. destruct H as [H1 H2].
@@ -724,8 +724,12 @@ Proof.
   - intros ->. destruct track.
     + destruct p as [|[|a l] [|b r]]; try discriminate. reflexivity.
     + destruct p; [reflexivity|discriminate].
-  - intros Hne ents Hin. destruct muts as [|m0 muts']; [congruence|].
-    rewrite forallb_forall in H4. specialize (H4 ents Hin). destruct ents; [discriminate|discriminate].
+  - intros Hne. destruct muts as [|m0 muts']; [congruence|].
+    destruct (rev p) as [|lst fr] eqn:Er; [discriminate|].
+    exists (rev fr), lst. split.
+    + rewrite <- (rev_involutive p), Er. reflexivity.
+    + intros ents Hin. apply in_rev in Hin. rewrite forallb_forall in H4. specialize (H4 ents Hin).
+      destruct ents; [discriminate|discriminate].
 Qed.
 
 (* the entities of the partition actually used all have mutations *)
@@ -1011,7 +1015,7 @@ Theorem mutations_partitioned c s this_run cl p cl' out :
   let msgs := co_mutates out in
   Permutation (concat (map m_body msgs)) muts /\
   NoDup (map fst (concat (map m_body msgs))) /\
-  (muts <> [] -> forall m, In m msgs -> m_body m <> []) /\
+  (muts <> [] -> exists front last, msgs = front ++ [last] /\ forall m, In m front -> m_body m <> []) /\
   map m_idx msgs = idx_seq (ct_mutate_index (sc_ticks cl)) (length msgs) /\
   (forall m, In m msgs ->
      m_tick m = sv_tick s /\ m_upd_tick m = ct_update_tick (sc_ticks cl') /\
@@ -1032,8 +1036,18 @@ Proof.
   split; [|split; [|split; [|split; [|split]]]].
   - rewrite Hcat. rewrite <- (map_body_keys _ Hndk) at 2. unfold mut_body. apply Permutation_map. exact Hperm.
   - rewrite Hcat. unfold mut_body. rewrite map_map. cbn [fst]. rewrite map_id. exact Hnd.
-  - intros Hmne m Hm. apply mut_msgs_header in Hm. destruct Hm as [_ [_ [_ Hin]]].
-    apply in_combine_r in Hin. specialize (Hne Hmne _ Hin). intros Hb. rewrite Hb in Hne. apply Hne. reflexivity.
+  - intros Hmne. destruct (Hne Hmne) as [fr [lst [Hpe Hfr]]].
+    pose proof (mut_msgs_bodies (cfg_track c) (sv_tick s) (ct_update_tick (sfc_ticks3 s this_run cl))
+                  (N.of_nat (length p)) (mutated_set s this_run cl) (ct_mutate_index (sc_ticks cl)) p) as Hb.
+    replace (map (mut_body (mutated_set s this_run cl)) p)
+      with (map (mut_body (mutated_set s this_run cl)) fr ++ [mut_body (mutated_set s this_run cl) lst]) in Hb
+      by (rewrite Hpe, map_app; reflexivity).
+    apply map_eq_app in Hb. destruct Hb as [fm [lm [Hmsgs [Hfm Hlm]]]].
+    apply map_eq_cons in Hlm. destruct Hlm as [lastm [tl [-> [_ Htl]]]]. apply map_eq_nil in Htl. subst tl.
+    exists fm, lastm. split; [exact Hmsgs|].
+    intros m Hm Hbody. apply (in_map m_body) in Hm. rewrite Hfm in Hm. apply in_map_iff in Hm.
+    destruct Hm as [ents [Heq Hin]]. specialize (Hfr ents Hin). apply Hfr.
+    rewrite Hbody in Heq. unfold mut_body in Heq. apply map_eq_nil in Heq. exact Heq.
   - reflexivity.
   - intros m Hm. apply mut_msgs_header in Hm. destruct Hm as [H1 [H2 [H3 _]]].
     rewrite H1, H2, H3, Hupd. auto.
